@@ -695,9 +695,19 @@ impl Corrupt {
         }
         match decode_once("parse_jsonb", bytes) {
             Err(v) => cx.push(v, sub()),
-            Ok((label, _)) => {
+            Ok((label, got)) => {
                 cx.digest.str(&label);
                 cx.stats.inc2("outcome", &format!("text_row:parse_jsonb:{label}"));
+                // the binary-only decoder has no text fallback: a value out of JSON text is text misread as binary
+                if let Some(g) = got {
+                    cx.push(
+                        Viol {
+                            class: "O4:text_misread_as_binary:parse_jsonb".into(),
+                            detail: format!("parse_jsonb on valid JSON text {:?} returned Ok({}): the text was read as a binary encoding", truncate_str(&text, 80), truncate_str(&mval::to_json(&g).to_string(), 120)),
+                        },
+                        sub(),
+                    );
+                }
             }
         }
     }
@@ -792,7 +802,7 @@ impl Scenario for Corrupt {
             _ => {
                 let cfg = doc_cfg(&mut r);
                 // one prefix run in 2,000 stores a document with a payload at the 2^24-byte boundary of the length field
-                let doc = if r.chance(1, 2000) { gen::gen_huge_payload(&mut r) } else { gen::gen_doc(&mut r, &cfg, 80) };
+                let doc = if r.chance(1, 2000) { gen::gen_huge_payload_bits(&mut r, &[24, 24, 25, 26, 27]) } else { gen::gen_doc(&mut r, &cfg, 80) };
                 let n = mval::encode(&doc).len();
                 Case::Prefix { doc, cut: r.idx(n) }
             }
@@ -827,6 +837,11 @@ impl Scenario for Corrupt {
                 cx.stats.inc("fault/truncate");
                 let b = mval::encode(doc);
                 let cut = (*cut).min(b.len().saturating_sub(1));
+                cx.stats.maxi("stored_bytes", b.len() as u64);
+                if b.len() >= 1 << 24 {
+                    // which bit of the 28-bit entry length field the stored payload sets
+                    cx.stats.inc(&format!("huge_payload/length_bit_{}", usize::BITS - 1 - b.len().leading_zeros()));
+                }
                 cx.digest.bytes(&b[..cut]);
                 let d = doc.clone();
                 cx.check(&b[..cut], Clause::MustErr, &["truncate"], move || Case::Prefix { doc: d.clone(), cut });
@@ -953,6 +968,10 @@ impl Scenario for Corrupt {
             }
             Case::Prefix { doc, cut } => {
                 let b = mval::encode(doc);
+                if b.len() > (1 << 20) {
+                    // informational copies are left out for multi-megabyte documents ("doc" alone defines the case)
+                    return json!({"mode": "prefix", "doc": mval::to_replay(doc), "cut": cut, "pristine_bytes": b.len()});
+                }
                 json!({"mode": "prefix", "doc": mval::to_replay(doc), "doc_json": mval::to_json(doc), "cut": cut, "pristine_hex": mval::hex(&b),
                        "stored_hex": mval::hex(&b[..(*cut).min(b.len())])})
             }
@@ -1024,6 +1043,7 @@ impl Scenario for Corrupt {
         m.insert("fault_noop_discarded".into(), json!(stats.get("fault_noop")));
         m.insert("outcome_table".into(), stats.group("outcome"));
         m.insert("run_kinds".into(), stats.group("runs"));
+        m.insert("prefix_runs_on_documents_with_a_payload_of_2^b_bytes".into(), stats.group("huge_payload"));
         m.insert("decodes".into(), json!(stats.steps));
         m.insert(
             "components".into(),
